@@ -401,6 +401,23 @@ func (d *driver) sortDomain(id int) bool {
 
 func (d *driver) pickOp() (model.Op, bool) {
 	lists, objs := d.ids("L"), d.ids("O")
+	if d.real.Derived > 0 && d.rng.Intn(4) > 0 {
+		// derived mode is about derived values: deep copies leave many plain containers behind (the copies of nested
+		// values), three operations in four go to receivers that are derived structs
+		only := func(ids []int) []int {
+			var out []int
+			for _, id := range ids {
+				if x := d.real.Fwd[id]; d.real.Inner(x) != x {
+					out = append(out, id)
+				}
+			}
+			if len(out) == 0 {
+				return ids
+			}
+			return out
+		}
+		lists, objs = only(lists), only(objs)
+	}
 	none := model.Val{K: "none"}
 	mk := func(op string, r int) model.Op { return model.Op{Op: op, R: r, V: none} }
 	if d.pending != nil {
